@@ -192,6 +192,11 @@ impl GraphSnapshot for StorageSnapshot {
             return None;
         }
 
+        // A removal that is still in the runs hides the value in the property store.
+        if self.inner.removed_node_property_keys(iid).contains(key) {
+            return None;
+        }
+
         let pager = self.pager.read().unwrap();
         let storage_val =
             read_node_property_from_store(&pager, self.inner.properties_root, iid, key)?;
@@ -208,6 +213,14 @@ impl GraphSnapshot for StorageSnapshot {
             return None;
         }
 
+        if self
+            .inner
+            .removed_edge_property_keys(snapshot_edge)
+            .contains(key)
+        {
+            return None;
+        }
+
         let pager = self.pager.read().unwrap();
         let storage_val =
             read_edge_property_from_store(&pager, self.inner.properties_root, edge, key)?;
@@ -220,6 +233,8 @@ impl GraphSnapshot for StorageSnapshot {
         if self.inner.properties_root != 0 {
             let pager = self.pager.read().unwrap();
             extend_node_properties_from_store(&pager, self.inner.properties_root, iid, &mut props)?;
+            let removed = self.inner.removed_node_property_keys(iid);
+            props.retain(|key, _| !removed.contains(key));
         }
 
         if props.is_empty() {
@@ -244,6 +259,8 @@ impl GraphSnapshot for StorageSnapshot {
                 edge,
                 &mut props,
             )?;
+            let removed = self.inner.removed_edge_property_keys(snapshot_edge);
+            props.retain(|key, _| !removed.contains(key));
         }
 
         if props.is_empty() {
